@@ -1,6 +1,7 @@
 package rules
 
 import (
+	"go/types"
 	"go/token"
 	"strings"
 
@@ -43,8 +44,8 @@ func ruleReadySet(c *report.Ctx, needReady, needNotRemoved bool) {
 		n := 0
 		an.Instrs(grw, func(in ssa.Instruction) {
 			mu, ok := in.(*ssa.MapUpdate)
-			if !ok {
-				return
+			if !ok || grw.Signature.Results().Len() == 0 || !types.Identical(mu.Map.Type(), grw.Signature.Results().At(0).Type()) {
+				return // only the ready set itself (not, e.g., the field map of a log call)
 			}
 			n++
 			gs := p.GuardsOf(mu)
